@@ -92,8 +92,8 @@ def _path_checks(ctx: Ctx, fi: FunctionInfo, label: str, *, write_sites: list[tu
     err_done = _done(cfg, [cfg.stmt_of(c) for c in err_calls])
     ex = Explorer(ctx, fi, fresh=ctorlike, inline={enforce_fi.name: enforce_fi})
 
-    def env(tell: object, predicted: object, uploaded: object) -> dict[str, object]:
-        e = cap_env(fi)
+    def env(tell: object, predicted: object, uploaded: object, wire: object = WCAP, ext: object = ECAP) -> dict[str, object]:
+        e = cap_env(fi, wire=wire, ext=ext)
         for t in tells:
             e[txt(t)] = tell
         for p in predicts:
@@ -101,48 +101,65 @@ def _path_checks(ctx: Ctx, fi: FunctionInfo, label: str, *, write_sites: list[tu
         e[txt(upload)] = uploaded
         return e
 
+    # Each cap must be enforced whatever the *other* cap is configured to (set / None): the guards around
+    # the budget check are evaluated for every combination in which the cap under test is set.
+    WIRE_COMBOS = ((WCAP, ECAP, "both caps set"), (WCAP, None, "external cap unset"))
+    EXT_COMBOS = ((WCAP, ECAP, "both caps set"), (None, ECAP, "wire cap unset"))
+
     # ---- wire cap: every written body is budget-checked before a normal return
-    o = ex.run(env(WCAP + 1, 0, 0))
     for key, site in write_sites:
         st = cfg.stmt_of(site)
-        starts = [(n, en) for n in cfg.done(st) for en in o.envs_at.get(n, [])]
-        if not starts:
-            raise AnalysisError(f"C16: write site `{txt(site)[:60]}` in {fi.fq} not reached under the test environment")
-        o2 = ex.run(starts=starts, avoid=err_done)
-        ctx.check(not o2.returns_normally, "RF-DOM", f"{label}:wire-cap-enforced:{key}", fi, site,
-                  ok=f"a body of cap+1 bytes written by `{txt(site)[:50]}` cannot be returned without passing the budget check and being replaced by an error",
-                  bad=f"after `{txt(site)[:70]}` a body larger than max_response_bytes is returned as a success (no path through _enforce_response_budgets / error rewrite)")
-        buf = _writer_buffer(fi, site)
-        if buf is not None:
-            o3 = ex.run(starts=starts)
-            orig = {en.get(buf, TOP) for _n, en in starts}
-            stale = False
-            for r in (x for x in walk_scope(fi.node) if isinstance(x, ast.Return)):
-                if r.value is None or buf not in {n.id for n in ast.walk(r.value) if isinstance(n, ast.Name)}:
-                    continue
-                for nid in cfg.done(r):
-                    for en in o3.envs_at.get(nid, []):
-                        if en.get(buf, TOP) in orig and TOP not in orig:
-                            stale = True
-            if not o2.returns_normally:
-                ctx.check(not stale, "RF-DOM", f"{label}:oversize-body-discarded:{key}", fi, site,
-                          ok="on overshoot the oversize buffer is replaced by a fresh one before returning",
-                          bad="on overshoot the error is appended to / returned with the oversize buffer: the response body still exceeds max_response_bytes")
+        escaped: list[str] = []
+        stale = False
+        for wire, ext, combo in WIRE_COMBOS:
+            o = ex.run(env(WCAP + 1, 0, 0, wire, ext))
+            starts = [(n, en) for n in cfg.done(st) for en in o.envs_at.get(n, [])]
+            if not starts:
+                raise AnalysisError(f"C16: write site `{txt(site)[:60]}` in {fi.fq} not reached under the test environment")
+            if ex.run(starts=starts, avoid=err_done).returns_normally:
+                escaped.append(combo)
+                continue
+            buf = _writer_buffer(fi, site)
+            if buf is not None:
+                o3 = ex.run(starts=starts)
+                orig = {en.get(buf, TOP) for _n, en in starts}
+                for r in (x for x in walk_scope(fi.node) if isinstance(x, ast.Return)):
+                    if r.value is None or buf not in {n.id for n in ast.walk(r.value) if isinstance(n, ast.Name)}:
+                        continue
+                    for nid in cfg.done(r):
+                        for en in o3.envs_at.get(nid, []):
+                            if en.get(buf, TOP) in orig and TOP not in orig:
+                                stale = True
+        ctx.check(not escaped, "RF-DOM", f"{label}:wire-cap-enforced:{key}", fi, site,
+                  ok=f"a body of cap+1 bytes written by `{txt(site)[:50]}` cannot be returned without passing the budget check and being replaced by an error (external cap set or unset)",
+                  bad=f"after `{txt(site)[:70]}` a body larger than max_response_bytes is returned as a success [{', '.join(escaped)}] (no path through _enforce_response_budgets / error rewrite)")
+        if not escaped and _writer_buffer(fi, site) is not None:
+            ctx.check(not stale, "RF-DOM", f"{label}:oversize-body-discarded:{key}", fi, site,
+                      ok="on overshoot the oversize buffer is replaced by a fresh one before returning",
+                      bad="on overshoot the error is appended to / returned with the oversize buffer: the response body still exceeds max_response_bytes")
     # ---- external cap, pre-flight: predicted over cap => no upload call
-    o = ex.run(env(10, ECAP + 1, 0))
-    ctx.check(not o.reaches(upload) and any(o.reaches(c) for c in err_calls), "RF-DOM", f"{label}:external-preflight-refuses-before-upload", fi, upload,
-              ok="a predicted upload of cap+1 bytes is answered with an error and the upload call is never reached",
-              bad="with a predicted upload over max_externalized_response_bytes the upload call is still reachable (the overshoot is paid for before being refused)")
+    bad_pf = []
+    for wire, ext, combo in EXT_COMBOS:
+        o = ex.run(env(10, ECAP + 1, 0, wire, ext))
+        if o.reaches(upload) or not any(o.reaches(c) for c in err_calls):
+            bad_pf.append(combo)
+    ctx.check(not bad_pf, "RF-DOM", f"{label}:external-preflight-refuses-before-upload", fi, upload,
+              ok="a predicted upload of cap+1 bytes is answered with an error and the upload call is never reached (wire cap set or unset)",
+              bad=f"with a predicted upload over max_externalized_response_bytes the upload call is still reachable [{', '.join(bad_pf)}] (the overshoot is paid for before being refused)")
     # ---- external cap, actual: upload reports cap+1 although the prediction (a lower bound) was at the cap
-    o = ex.run(env(10, ECAP, ECAP + 1))
     ust = cfg.stmt_of(upload)
-    starts = [(n, en) for n in cfg.done(ust) for en in o.envs_at.get(n, [])]
-    if not starts:
-        raise AnalysisError(f"C16: upload call in {fi.fq} not reached with a prediction at the cap")
-    o2 = ex.run(starts=starts, avoid=err_done)
-    ctx.check(not o2.returns_normally, "RF-DOM", f"{label}:actual-upload-checked", fi, upload,
-              ok="an actual upload of cap+1 bytes (prediction at the cap) ends in an error response",
-              bad="an actual upload over max_externalized_response_bytes (the prediction is only a lower bound) is returned as a success")
+    bad_act = []
+    for wire, ext, combo in EXT_COMBOS:
+        o = ex.run(env(10, ECAP, ECAP + 1, wire, ext))
+        starts = [(n, en) for n in cfg.done(ust) for en in o.envs_at.get(n, [])]
+        if not starts:
+            raise AnalysisError(f"C16: upload call in {fi.fq} not reached with a prediction at the cap")
+        if ex.run(starts=starts, avoid=err_done).returns_normally:
+            bad_act.append(combo)
+    ctx.check(not bad_act, "RF-DOM", f"{label}:actual-upload-checked", fi, upload,
+              ok="an actual upload of cap+1 bytes (prediction at the cap) ends in an error response (wire cap set or unset)",
+              bad=f"an actual upload over max_externalized_response_bytes (the prediction is only a lower bound) is returned as a success [{', '.join(bad_act)}]: "
+              "the comparison of the uploaded bytes with the external cap is skipped for this cap configuration")
     # (the arguments of the budget call are not matched syntactically: the scenarios above evaluate the
     #  call with the values the path really passes, so a wrong argument shows up as a failed scenario)
 
@@ -246,17 +263,24 @@ def run(ctx: Ctx) -> None:
     check_turn_stops_over_wire_cap(ctx, tf)
     check_turn_measure(ctx, tf)
     ex = Explorer(ctx, tf.fi, fresh=ctorlike, inline={enforce.name: enforce})
-    o = ex.run(turn_env(tf, predicted=ECAP + 1))
-    ctx.check(not o.reaches(tf.flush) and any(o.reaches(c) for c in tf.err_writes), "RF-DOM", "producer:external-preflight-refuses-before-upload", tf.fi, tf.flush,
-              ok="a predicted upload of cap+1 bytes writes an error batch and never reaches the flush", bad="with a predicted upload over the external cap the flush (upload) is still reachable")
-    o = ex.run(turn_env(tf, predicted=ECAP, uploaded=ECAP + 1))
-    starts = [(n, en) for n in tf.cfg.done(tf.flush_stmt) for en in o.envs_at.get(n, [])]
-    if not starts:
-        raise AnalysisError("C16: producer flush not reached with a prediction at the cap")
-    o2 = ex.run(starts=starts, avoid=_done(tf.cfg, [tf.cfg.stmt_of(c) for c in tf.err_writes]))
-    ctx.check(tf.acc is not None and not o2.reaches(tf.ret), "RF-DOM", "producer:actual-upload-checked", tf.fi, tf.flush,
-              ok="a cumulative upload of cap+1 bytes ends in an error batch",
-              bad="after the flush the bytes actually uploaded are never compared with max_externalized_response_bytes: a turn whose real upload exceeds the cap "
+    bad_pf, bad_act = [], []
+    for wire, combo in ((WCAP, "both caps set"), (None, "wire cap unset")):
+        o = ex.run(turn_env(tf, predicted=ECAP + 1, wire=wire))
+        if o.reaches(tf.flush) or not any(o.reaches(c) for c in tf.err_writes):
+            bad_pf.append(combo)
+        o = ex.run(turn_env(tf, predicted=ECAP, uploaded=ECAP + 1, wire=wire))
+        starts = [(n, en) for n in tf.cfg.done(tf.flush_stmt) for en in o.envs_at.get(n, [])]
+        if not starts:
+            raise AnalysisError("C16: producer flush not reached with a prediction at the cap")
+        o2 = ex.run(starts=starts, avoid=_done(tf.cfg, [tf.cfg.stmt_of(c) for c in tf.err_writes]))
+        if tf.acc is None or o2.reaches(tf.ret):
+            bad_act.append(combo)
+    ctx.check(not bad_pf, "RF-DOM", "producer:external-preflight-refuses-before-upload", tf.fi, tf.flush,
+              ok="a predicted upload of cap+1 bytes writes an error batch and never reaches the flush (wire cap set or unset)",
+              bad=f"with a predicted upload over the external cap the flush (upload) is still reachable [{', '.join(bad_pf)}]")
+    ctx.check(not bad_act, "RF-DOM", "producer:actual-upload-checked", tf.fi, tf.flush,
+              ok="a cumulative upload of cap+1 bytes ends in an error batch (wire cap set or unset)",
+              bad=f"after the flush the bytes actually uploaded are not compared with max_externalized_response_bytes [{', '.join(bad_act)}]: a turn whose real upload exceeds the cap "
               "(the pre-flight only sees the predicted, smaller size) returns 200 OK")
 
     # ------------------------------------------------------------------ H: every upload-capable call is counted
